@@ -112,6 +112,29 @@ func (p *Program) verifyFunction(f *ssa.Function, ct *Contract, sweep, refute bo
 					}
 				}
 			}
+			// ghost frame: a scalar ghost variable the contract does not list under assigns must be left unchanged,
+			// because callers that use this contract keep its value across the call
+			if !ct.Inline && !ct.Lib {
+				star := false
+				listed := map[string]bool{}
+				for _, a := range ct.Assigns {
+					listed[a] = true
+					if a == "*" {
+						star = true
+					}
+				}
+				for _, g := range p.specs.GhostList {
+					gd := p.specs.Ghost[g]
+					cur, touched := st.Ghost[g]
+					if star || listed[g] || !touched || gd.S.Name == "Array" {
+						continue
+					}
+					entry := Var("g."+g+"@0", gd.S)
+					if cur != entry {
+						vc.oblige(st, "frame", "ghost:"+g, ct.allProps(), Eq(cur, entry), f.Pos())
+					}
+				}
+			}
 			// reachability of the normal exit (a proof over an unreachable exit is vacuous)
 			vc.obls = append(vc.obls, &Obligation{Name: p.shortName(f) + "/cover/exit-reachable", Kind: "cover", Props: ct.allProps(), Goal: TFalse, Reach: st.Reach, NFacts: len(vc.facts), Fn: f.String(), Expect: "sat"})
 		}
